@@ -2,6 +2,7 @@ package checks
 
 import (
 	"fmt"
+	"strings"
 
 	cose "github.com/veraison/go-cose"
 
@@ -254,7 +255,14 @@ func c09one(rec *mon.Recorder, kind, source string, b []byte, verify func(v any)
 	}
 	v3, err := cd.decode(e1)
 	if err != nil {
-		rec.Violate("canonical-form-refused", kind, "encoding with raw bytes discarded is refused by the decoder: "+err.Error()+" e1="+hexs(e1), in)
+		key := kind
+		if strings.Contains(err.Error(), "overflows Go's int64") || c09hasBignumWitness(b) {
+			// witness class of known finding F1: a positive bignum (tag 2) between 2^63 and 2^64 inside a
+			// protected header is accepted, becomes a big.Int, and is re-encoded as a plain CBOR uint that
+			// the decoder's int64 conversion refuses
+			key = "positive-bignum-between-2^63-and-2^64-reencoded-as-uint"
+		}
+		rec.Violate("canonical-form-refused", key, "encoding with raw bytes discarded is refused by the decoder: "+err.Error()+" e1="+hexs(e1), in)
 		return
 	}
 	e2, err := cd.encode(v3)
@@ -276,6 +284,13 @@ func c09one(rec *mon.Recorder, kind, source string, b []byte, verify func(v any)
 
 func runC09(c *Ctx) {
 	rec := c.Rec
+	// fixed witnesses (always exercised, so that a listed finding is reported on every run)
+	{
+		prot := refcbor.NMap(refcbor.NInt(1), refcbor.NInt(-8), refcbor.NTstr("a"), refcbor.NTag(2, refcbor.NBstr([]byte{0xfc, 0xbf, 0xef, 0x5c, 0xe0, 0x32, 0x95, 0xe3})))
+		w := &gen.WSign1{L: gen.WLayer{ProtMap: prot, Unprot: refcbor.NMap()}, Payload: []byte("p"), Sig: []byte{1, 2}}
+		b := w.Bytes()
+		c09one(rec, "untagged", "fixed-witness", b, nil, map[string]any{"wire": mon.FullHex(b), "nesting": "witness"})
+	}
 	n := c.N(5000, 300000)
 	mon.Parallel(c.Workers, n, func(w, i int) {
 		r := mon.NewRand(uint64(c.Seed)).Sub(uint64(111000 + i))
@@ -374,4 +389,28 @@ func runC09(c *Ctx) {
 	rec.Require("fixed-point", int64(n/2))
 	rec.Require("verified-after-reencoding", int64(n/2))
 	rec.RequireClasses(40)
+}
+
+// c09hasBignumWitness reports whether the wire message carries, in the
+// protected header of any layer, a positive bignum (tag 2) whose value lies
+// between 2^63 and 2^64 - the input class of known finding F1.
+func c09hasBignumWitness(b []byte) bool {
+	t, err := gen.ParseTree(b)
+	if err != nil {
+		return false
+	}
+	found := false
+	for _, s := range t.Sites() {
+		n := s.N
+		if n.Major == refcbor.Tag && n.Arg == 2 && len(n.Kids) == 1 && n.Kids[0].Major == refcbor.Bstr {
+			v := n.Kids[0].Str
+			for len(v) > 0 && v[0] == 0 {
+				v = v[1:]
+			}
+			if len(v) == 8 && v[0]&0x80 != 0 {
+				found = true
+			}
+		}
+	}
+	return found
 }
